@@ -101,12 +101,15 @@ Definition is_uploader (j : job) : bool :=
 Definition dest_of (j : job) : name :=
   match j_kind j with KMeta s => Meta (j_bid j) s | _ => Dest (j_bid j) end.
 
-(* What Tee/MirrorLeecher forwards to a mirror.  [src] is the sequence of read()
-   results of the source stream.  The consumer (the tar stream reader) stops at
-   the end-of-archive marker after [consumed] reads, which may be before the end
-   of the stream; when it finished without an exception Tee.__exit__ drains the
-   remaining reads through the leecher before committing; on an exception
-   nothing more is read and the mirror is aborted. *)
+(* What Tee/MirrorLeecher forwards to a mirror.  [src] is the sequence of
+   (non-empty) read() results of the source stream.  The consumer (the tar
+   stream reader) stops at the end-of-archive marker, possibly before the end
+   of the stream.  [ok] = the consumer finished without an exception AND
+   Tee.__exit__ could then drain the rest of the stream through the leecher;
+   then [n] is the number of reads the consumer made and everything is
+   forwarded.  Otherwise (exception in the consumer, or a failing read while
+   draining) [n] is the number of reads that had succeeded: those were
+   forwarded, nothing more is read and the mirror is aborted. *)
 Definition tee_forwarded (src : list data) (consumed : nat) (ok : bool) : list data :=
   firstn consumed src ++ (if ok then skipn consumed src else []).
 
@@ -299,6 +302,20 @@ Definition init (js : list job) : st :=
   {| s_fs := fs0; s_procs := fun p => option_map (fun j => (j, PStart)) (nth_error js p) |}.
 
 Definition reachable (s : st) : Prop := exists js ls, s = run (init js) ls.
+
+(* the temporary name a process holds, and whether it is still before its link/replace *)
+Definition held (c : pc) : option name :=
+  match c with
+  | PWrite t _ _ _ => Some t | PClose t _ _ => Some t | PChmod t _ => Some t
+  | PPublish t => Some t | PUnlink t _ => Some t
+  | _ => None
+  end.
+
+Definition pre (c : pc) : bool :=
+  match c with
+  | PWrite _ _ _ _ => true | PClose _ _ _ => true | PChmod _ _ => true | PPublish _ => true
+  | _ => false
+  end.
 
 (* the process has linked the artifact name itself *)
 Definition published_by (c : pc) : bool :=
